@@ -8,6 +8,10 @@ spec/Pfc.tla: sender that packs blocks (separator, structure header, data, fille
   foreign pages / streams carrying blocks of their own, the same unit fault alphabet (header: magazine/packet, page number,
   subcode S1-S4, control bytes; packet: block pointer, separators, fillers, structure header nibbles), reference receiver with the
   two policies the statement leaves open for unreadable bytes.
+Unrelated Teletext traffic is part of both specifications (by construction, not random): IdlA mode "mix" = every packet X/0..X/29 of
+  every magazine and packets 30/31 of every other channel, carrying the body of the next packet of the selected service, between two
+  packets of the service; Pfc Noise = packets 26..31 of the page's own magazine and packets 1/25/26..31 of another magazine, each
+  carrying a complete foreign block, behind every item at once and at every single position.  They change nothing.
 GEN -> REPLAY on vbi_idl_demux_feed / vbi_pfc_demux_feed with real Hamming/CRC coded packets built by the check (lib/vlib/ttx.py);
   err1 / err2 are placed on concrete bits (all 8 single bit positions, the 28 bit pairs) of the unit the specification names."""
 import json, os, random, itertools, collections, threading
@@ -30,6 +34,12 @@ MANIFEST = dict(
          "scaled packets, dropped items, foreign pages and streams with their own blocks, one-bit and two-bit hits on every Hamming "
          "protected byte of headers (page number, subcode, control bytes) and packets (block pointer, separator, filler, structure "
          "header), and checks that the reference receiver returns the sent blocks and, after damage, only sent blocks and resumes. "
+         "Unrelated Teletext packets are enumerated by the specifications: for IDL every packet X/0 ... X/29 of all eight magazines and "
+         "the packets 30/31 of every other data channel (8/30, 8/31 ...), each looking like the next packet of the selected service "
+         "behind its address bytes, between two packets of the service; for PFC the packets 26 ... 31 of the page's own magazine "
+         "(X/26-X/28, M/29, M/30, M/31; pages in magazine 1 and in magazine 8, so that 8/30 and 8/31 occur) and packets of another "
+         "magazine, each carrying a complete block of another service, at every position between header and last data packet and "
+         "between pages. None of them may change a delivery or raise the loss flag. "
          "All behaviours are replayed on the real demultiplexers with real coding; single bit positions and bit pairs are enumerated.",
     note="Bounded: IDL <= 5 packets per behaviour in MC and 3 in replay, PFC <= 4 blocks with scaled packets in MC and <= 3 blocks in real "
          "39-byte packets in replay, one fault per PFC transmission. The IDL repeat indicator byte is present with value 0 only "
@@ -145,6 +155,13 @@ def compile_idl(rnd, beh, placer):
                 pkt = ttx.mrag(rnd.randrange(1, 9), rnd.randrange(0, 30)) + [ttx.par8(rnd.randrange(0x20, 0x7F)) for _ in range(40)]
                 lines.append("F " + ttx.hexpk(pkt)); exp.append([])
                 continue
+            if a["a"] == "Mix":
+                # an unrelated Teletext packet (magazine, packet number as the specification says) whose body is the packet the
+                # selected service would send next
+                pkt, _, _ = idl_packet(rnd, perm, st)
+                pkt[0:2] = ttx.mrag(a["mag"], a["no"])
+                lines.append("F " + ttx.hexpk(pkt)); exp.append([])
+                continue
             it = a["it"]
             f = it["flt"]
             if f["u"] == "drop":
@@ -173,6 +190,7 @@ def compile_idl(rnd, beh, placer):
 
 # ------------------------------------------------------------------------------------------------ Page Format - Clear
 PFC_PGNO, PFC_STREAM = 0x1DF, 5
+PFC_PGNO_M8 = 0x8DF     # a page of magazine 8: packets 30 / 31 of its magazine are 8/30 (broadcast service data) and 8/31
 PFC_HDR_UNIT = dict(mrag0=0, mrag1=1, pgu=2, pgt=3, s1=4, s2=5, s3=6, s4=7, c1=8, c2=9)
 
 
@@ -185,11 +203,11 @@ def pfc_unit_class(tr):
     return "pfc:%s:%s" % (it["t"], f["u"])
 
 
-def pfc_packets(rnd, tr, alts, bits):
+def pfc_packets(rnd, tr, alts, bits, pgno=PFC_PGNO):
     """TLC transmission -> driver lines and the expected deliveries of every accepted policy (seeded byte substitution on
     data values); bits: the bit positions inverted in the unit the fault names"""
     perm = list(range(256)); rnd.shuffle(perm)
-    mag = PFC_PGNO >> 8
+    mag = pgno >> 8
     om = (mag % 8) + 1
 
     def el(x):
@@ -215,13 +233,15 @@ def pfc_packets(rnd, tr, alts, bits):
         if fault["k"] == "drop" and fault["at"] == n + 1:
             continue
         if it["t"] == "H":
-            pk = hdr(mag, PFC_PGNO, it["ci"], it["n"], PFC_STREAM)
+            pk = hdr(mag, pgno, it["ci"], it["n"], PFC_STREAM)
         elif it["t"] == "X":        # another page of our magazine (the page number after ours: the carry reaches the tens)
-            pk = hdr(mag, (PFC_PGNO + 1) & 0xFF, rnd.randrange(16), 1, PFC_STREAM)
+            pk = hdr(mag, (pgno + 1) & 0xFF, rnd.randrange(16), 1, PFC_STREAM)
         elif it["t"] == "S":        # our page with the next stream number
-            pk = hdr(mag, PFC_PGNO, rnd.randrange(16), 1, PFC_STREAM + 1)
+            pk = hdr(mag, pgno, rnd.randrange(16), 1, PFC_STREAM + 1)
         elif it["t"] == "M":        # another magazine, same page number and stream
-            pk = hdr(om, PFC_PGNO, rnd.randrange(16), rnd.randrange(1, 8), PFC_STREAM)
+            pk = hdr(om, pgno, rnd.randrange(16), rnd.randrange(1, 8), PFC_STREAM)
+        elif it["t"] == "U":        # unrelated packet (Noise): packet 26..31 of our magazine / any packet of another magazine
+            pk = ttx.mrag(mag if it["own"] else om, it["no"]) + [ttx.ham8(it["bp"])] + [el(x) for x in it["data"]]
         else:
             pk = ttx.mrag(mag, it["no"]) + [ttx.ham8(it["bp"])] + [el(x) for x in it["data"]]
         assert len(pk) == 42
@@ -230,7 +250,7 @@ def pfc_packets(rnd, tr, alts, bits):
             assert len(bits) == (1 if fault["k"] == "err1" else 2)
             flip(pk, idx, bits)
         lines.append("F " + ttx.hexpk(pk)); src.append(n)
-    exps = [[[] if n is None else [dict(app=o["app"], size=o["size"], bytes=[perm[x] for x in o["bytes"]]) for o in outs[n]] for n in src]
+    exps = [[[] if n is None else [dict(app=o["app"], size=o["size"], bytes=[perm[x] for x in o["bytes"]], pgno=pgno) for o in outs[n]] for n in src]
             for outs in alts]
     return lines, exps
 
@@ -240,9 +260,11 @@ def compile_pfc(rnd, tr, placer):
     alts = [a for n, a in enumerate(tr["alts"]) if a not in tr["alts"][:n]]      # deliveries per policy; mostly they agree
     variants = placer.variants(pfc_unit_class(tr), f["k"]) if f["k"] in ("err1", "err2") else [()]
     res = []
-    for bits in variants:
-        lines, exps = pfc_packets(rnd, tr, alts, bits)
-        res.append((lines, exps, "R pfc %x %d" % (PFC_PGNO, PFC_STREAM), "pfc"))
+    # transmissions with unrelated packets are sent twice: on a page of magazine 1 and on a page of magazine 8
+    for pgno in ((PFC_PGNO, PFC_PGNO_M8) if tr.get("nz", {}).get("c") else (PFC_PGNO,)):
+        for bits in variants:
+            lines, exps = pfc_packets(rnd, tr, alts, bits, pgno)
+            res.append((lines, exps, "R pfc %x %d" % (pgno, PFC_STREAM), "pfc:noise" if pgno != PFC_PGNO or tr.get("nz", {}).get("c") else "pfc"))
     return res
 
 
@@ -251,7 +273,7 @@ def pfc_eq(e, g):
     g = [y for y in g if y["size"] > 0]
     e = [x for x in e if x["size"] > 0]
     return len(e) == len(g) and all(x["app"] == y["app"] and x["size"] == y["size"] and x["bytes"] == y["bytes"]
-                                    and y.get("pgno") == PFC_PGNO and y.get("stream") == PFC_STREAM for x, y in zip(e, g))
+                                    and y.get("pgno") == x.get("pgno", PFC_PGNO) and y.get("stream") == PFC_STREAM for x, y in zip(e, g))
 
 
 def idl_eq(e, g):
@@ -340,6 +362,7 @@ def run(ctx):
         try:
             mc(ctx, "Pfc", "MC_Pfc_q" if quick else "MC_Pfc_t", "MC_Pfc", workers=half, timeout=2400, heap="8g")
             if not quick:
+                mc(ctx, "Pfc", "MC_Pfc_n", "MC_Pfc unrelated packets x faults", workers=half, timeout=2400, heap="8g")
                 mc(ctx, "Pfc", "MC_Pfc_t4", "MC_Pfc 4 blocks", workers=half, timeout=2400, heap="8g")
                 mc(ctx, "Pfc", "MC_Pfc_eq", "MC_Pfc Step = Leap", workers=half, timeout=2400, heap="8g")
             mc(ctx, "IdlA", "MC_IdlA_q" if quick else "MC_IdlA", "MC_IdlA", workers=half, timeout=2400, coverage=not quick, heap="8g")
@@ -357,8 +380,8 @@ def run(ctx):
         replay_set(ctx, drv, comp, "idl", idl_eq)
         # ---- PFC
         comp = []
-        for cfg, label in ((("Gen_Pfc_q", "GEN Pfc alignments"), ("Gen_Pfc_uq", "GEN Pfc units")) if quick else
-                           (("Gen_Pfc_t", "GEN Pfc alignments"), ("Gen_Pfc_ut", "GEN Pfc units"))):
+        for cfg, label in ((("Gen_Pfc_q", "GEN Pfc alignments"), ("Gen_Pfc_uq", "GEN Pfc units"), ("Gen_Pfc_nq", "GEN Pfc unrelated packets")) if quick else
+                           (("Gen_Pfc_t", "GEN Pfc alignments"), ("Gen_Pfc_ut", "GEN Pfc units"), ("Gen_Pfc_nt", "GEN Pfc unrelated packets"))):
             # thorough: TLC checks every transmission of the alignment model, every second one is replayed (a uniform sample;
             # the outcomes of all policies are inside one behaviour)
             g = mc(ctx, "Gen_Pfc", cfg, label, workers=half, timeout=2400, collect_tr=True, heap="8g",
